@@ -268,4 +268,75 @@ Section ConnProofs.
     - simpl. auto.
     - eapply phase_inv_order; eauto.
   Qed.
+  (** *** The repaired system: every step of it is a step of the old one, so contiguity, exactly-once
+      and reassembly carry over; and per-emitter order now holds for ALL schedules. *)
+  Notation cstpf := (cstep_fix declared max_atts split tr).
+  Notation creachf := (creachable_fix declared max_atts split tr progs).
+
+  Lemma cstep_fix_simulated a c c' : cstpf a c = Some c' -> exists a', cstp a' c = Some c'.
+  Proof.
+    intros H. destruct a as [i|i| | |a].
+    - cbn [cstep_fix] in H.
+      destruct (nth_error (st_em (c_base c)) i) as [[|p rest]|] eqn:En; try discriminate.
+      destruct (c_connected c) eqn:Hc; simpl in H.
+      + destruct (c_sendbuf c) eqn:Hs.
+        * exists (CEmit i). cbn [cstep]. rewrite En, Hc, ?Hs. exact H.
+        * exists (CParkStale i). cbn [cstep]. rewrite Hc, En, Hs. exact H.
+      + exists (CEmit i). cbn [cstep]. rewrite En, Hc. exact H.
+    - cbn [cstep_fix] in H. discriminate.
+    - exists CConnected. exact H.
+    - exists CFlush. exact H.
+    - exists (CBase a). exact H.
+  Qed.
+
+  Lemma creachable_fix_old c : creachf c -> creach c.
+  Proof.
+    induction 1 as [c I | c a c' R IH St].
+    - now apply reach_init.
+    - destruct (cstep_fix_simulated _ _ _ St) as (a' & St'). eapply reach_step; eauto.
+  Qed.
+
+  Lemma sendbuf_nil_parked_nil c : CInv c -> c_sendbuf c = [] -> c_parked c = [].
+  Proof.
+    intros I H. rewrite (ci_sendbuf _ I) in H. destruct (c_parked c) as [|[i p] l]; [reflexivity|].
+    simpl in H. discriminate.
+  Qed.
+
+  Theorem conn_order_fixed c : creachf c ->
+    pops progs (map fst (c_all c)) = Some (map snd (c_all c), st_em (c_base c)).
+  Proof.
+    revert c. apply (invariant_reachable_under (step := cstpf) (Q := CInv)
+      (P := fun c => pops progs (map fst (c_all c)) = Some (map snd (c_all c), st_em (c_base c)))).
+    - intros c R. apply cinv_reachable. now apply creachable_fix_old.
+    - split.
+      + intros c ->. reflexivity.
+      + intros c a c' I P H. unfold c_all in *. destruct a as [i|i| | |a].
+        * cbn [cstep_fix] in H.
+          destruct (nth_error (st_em (c_base c)) i) as [[|p rest]|] eqn:En; try discriminate.
+          destruct (c_connected c && match c_sendbuf c with [] => true | _ => false end) eqn:Hd.
+          -- apply andb_true_iff in Hd as [_ Hs]. destruct (c_sendbuf c) eqn:Es; try discriminate.
+             rewrite (sendbuf_nil_parked_nil _ I Es) in *. inversion H; subst; clear H. simpl.
+             rewrite !app_nil_r in *.
+             rewrite !map_app. simpl. eapply pops_snoc; eauto.
+          -- inversion H; subst; clear H. simpl. rewrite app_assoc, !map_app. simpl.
+             rewrite <- !map_app. eapply pops_snoc; eauto.
+        * cbn [cstep_fix] in H. discriminate.
+        * cbn [cstep_fix cstep] in H. destruct (c_connected c); try discriminate.
+          inversion H; subst; exact P.
+        * cbn [cstep_fix cstep] in H. destruct (c_connected c); try discriminate.
+          destruct (c_parked c) as [|x l] eqn:Ep; try discriminate.
+          inversion H; subst; clear H. simpl. rewrite app_nil_r. exact P.
+        * cbn [cstep_fix] in H.
+          destruct a as [i| | |ty| | |k]; cbn [cstep] in H; try discriminate;
+            (match type of H with
+             | match ?st with _ => _ end = _ => destruct st as [b|] eqn:Eb; [|discriminate]
+             end;
+             inversion H; subst; clear H;
+             match type of Eb with
+             | step _ _ _ _ ?act _ = _ =>
+                 assert (Hne : forall i, act <> Emit i) by (intros i0 Hx; discriminate Hx)
+             end;
+             destruct (step_keeps_log_em _ _ _ Hne Eb) as [Hl He]; simpl; rewrite Hl, He; exact P).
+  Qed.
+
 End ConnProofs.
